@@ -166,6 +166,8 @@ def _events():
 
 
 class Harness:
+    prune_after_violation = True  # the reference cannot be re-synchronised after a divergence
+
     def __init__(self):
         d = common.scratch_dir("c10")
         self.xsh = load_session(data_dir=d)
